@@ -6,6 +6,9 @@ import (
 	"github.com/ipld/go-ipld-prime/datamodel"
 )
 
+// maxExploreRangeInterests bounds the number of indices an ExploreRange lists in Interests.
+const maxExploreRangeInterests = 1024
+
 // ExploreRange traverses a list, and for each element in the range specified,
 // will apply a next selector to those reached nodes.
 type ExploreRange struct {
@@ -15,7 +18,8 @@ type ExploreRange struct {
 	interest []datamodel.PathSegment // index of element we're interested in
 }
 
-// Interests for ExploreRange are all path segments within the iteration range
+// Interests for ExploreRange are all path segments within the iteration range,
+// or nil (meaning: iterate the node, Explore filters) when the range is large.
 func (s ExploreRange) Interests() []datamodel.PathSegment {
 	return s.interest
 }
@@ -83,10 +87,17 @@ func (pc ParseContext) ParseExploreRange(n datamodel.Node) (Selector, error) {
 		selector,
 		startValue,
 		endValue,
-		make([]datamodel.PathSegment, 0, endValue-startValue),
+		nil,
 	}
-	for i := startValue; i < endValue; i++ {
-		x.interest = append(x.interest, datamodel.PathSegmentOfInt(i))
+	// Only small ranges get their indices listed up front.  For larger ones (and for ranges whose
+	// size does not fit an int64) Interests stays nil: the walk then iterates the node's own
+	// children and Explore filters them by index, which visits the same children in the same
+	// order without allocating in proportion to numbers taken from an untrusted selector.
+	if size := endValue - startValue; size > 0 && size <= maxExploreRangeInterests {
+		x.interest = make([]datamodel.PathSegment, 0, size)
+		for i := startValue; i < endValue; i++ {
+			x.interest = append(x.interest, datamodel.PathSegmentOfInt(i))
+		}
 	}
 	return x, nil
 }
